@@ -3,6 +3,8 @@ pub mod frame;
 pub mod eng;
 pub mod gen;
 pub mod corpus;
+pub mod c01;
+pub mod c02;
 pub mod c06;
 
 use frame::{Ctx, Report};
@@ -17,9 +19,17 @@ pub struct Property {
     pub assumptions: &'static [&'static str],
 }
 
+macro_rules! prop {
+    ($id:expr, $m:ident) => {
+        Property { id: $id, run: $m::run, replay: $m::replay, level: $m::LEVEL, rule: $m::RULE, assumptions: $m::ASSUMPTIONS }
+    };
+}
+
 pub fn lookup(id: &str) -> Option<Property> {
     Some(match id {
-        "C06" => Property { id: "C06", run: c06::run, replay: c06::replay, level: c06::LEVEL, rule: c06::RULE, assumptions: c06::ASSUMPTIONS },
+        "C01" => prop!("C01", c01),
+        "C02" => prop!("C02", c02),
+        "C06" => prop!("C06", c06),
         _ => return None,
     })
 }
